@@ -32,7 +32,7 @@ CLAIMS = {
             "AES.encrypt/decrypt round loops by loop contract for ALL round keys and blocks (S-box uninterpreted), key schedule "
             "for all keys, ECB/CBC block methods, adapter = zero-padded CBC / exact inverse / MAC = last block / frame, "
             "bad lengths -> ValueError; the adapter level is proved per data length 1..33 (quick) / 1..80 (thorough) with "
-            "symbolic content (bounded in length, stated in the evidence); CFB/OFB/CTR and chunked feeding: bounded monitor ; ADDED: Counter.__init__/increment for all 128-bit values, CTR and OFB from every in-block offset x call length (state induction over calls), CFB-1/8/16 from any shift register, PKCS7 helpers, BlockFeeder.feed for any buffer and any amount of data in block/stream/segment modes (loop contract incl. termination); AES-192/256 rounds and key schedules are in the quick tier too",
+            "symbolic content (bounded in length, stated in the evidence) ; ADDED: Counter.__init__/increment for all 128-bit values, CTR and OFB from every in-block offset x call length (state induction over calls), CFB-1/8/16 from any shift register, PKCS7 helpers, BlockFeeder.feed for any buffer and any amount of data in block/stream/segment modes (loop contract incl. termination); AES-192/256 rounds and key schedules are in the quick tier too",
             "DESIGN.md section 9 C16",
             TB + "; D_k(E_k(x)) = x taken from FIPS-197 (per-round lemmas proved); adapter proofs bounded in data length",
             "deductive: AST->VC (BV, loop contracts, uninterpreted S-box) + ground evaluation of tables, z3"),
